@@ -27,6 +27,8 @@ package interp
 // after calls, and re-established by every writer - the getopts builtin (optind-1 after clamping optind to >= 1) and
 // next itself - through the onstore obligations below; that these are all the writers is the onstore-coverage obligation.
 //@ func Runner.builtin
+// (ghost variables updated at the call sites of this function; everything else it may write is not framed)
+//@ modifies heap, filePos
 //@ props C28
 //@ noauto
 //@ objinv Runner [getopts-state] self.optState.argidx >= 0 && self.optState.runeidx >= 0
@@ -98,6 +100,8 @@ package interp
 //@ spec rlEsc(S string, raw bool, s int, k int) bool
 //@ spec bytesAre(b []byte, t string) bool = len(b) == len(t) && all(j, 0, len(b), b[j] == t[j])
 //@ func Runner.readLine
+// (ghost variables updated at the call sites of this function; everything else it may write is not framed)
+//@ modifies heap, filePos
 //@ noauto
 //@ props C28 C23
 //@ assume [stream-position-in-range] 0 <= filePos && filePos <= 4611686018427387904
@@ -147,6 +151,8 @@ package interp
 // outside: a parsed assignment has a name (assumed: an AST invariant of the parser), and no words expand to no fields
 // (contract of Runner.fields below).
 //@ func Runner.cmd
+// (ghost variables updated at the call sites of this function; everything else it may write is not framed)
+//@ modifies heap, filePos
 //@ noauto
 //@ props C28
 //@ astinv Assign [parsed-assignments-are-named] self.Name.Value != ""
@@ -164,70 +170,99 @@ package interp
 // ---- C28: functions on the path of Run whose index, slice, division, type assertion and panic obligations are
 // discharged without any annotation (found by the zero-annotation sweep, `govc sweep interp`). ----
 //@ func DefaultReadDirHandler$1
+//@ noauto
 //@ props C28
 //@ func LookPath
+//@ noauto
 //@ props C28
 //@ func New
+//@ noauto
 //@ props C28
 //@ func ReadDirHandler$1$1
+//@ noauto
 //@ props C28
 //@ func Runner.bashOptByName
+//@ noauto
 //@ props C28
 //@ func Runner.fillExpandConfig$1
+//@ noauto
 //@ props C28
 //@ func Runner.flattenAssigns$1
+//@ noauto
 //@ props C28
 //@ func Runner.hdocString$1
+//@ noauto
 //@ props C28
 //@ func Runner.hdocString
+//@ noauto
 //@ props C28
 //@ func Runner.loopStmtsBroken
+//@ noauto
 //@ props C28
 //@ func Runner.posixOptByFlag
+//@ noauto
 //@ props C28
 //@ func Runner.posixOptByName
+//@ noauto
 //@ props C28
 //@ func Runner.posixOptFlags
+//@ noauto
 //@ props C28
 //@ func Runner.runHelp
+//@ noauto
 //@ props C28
 //@ func Runner.stmtSync
+// (ghost variable updated at a call site of this function; everything else it may write is not framed)
+//@ modifies heap, filePos
 //@ props C28
 //@ func Runner.stmts
+//@ noauto
 //@ props C28
 //@ func Runner.subshell
+//@ noauto
 //@ props C28
 //@ func catShortcutArg
+//@ noauto
 //@ props C28
 //@ func findExecutable
+//@ noauto
 //@ props C28
 //@ func hdocQuotedDelim
+//@ noauto
 //@ props C28
 //@ func helpMatch
+//@ noauto
 //@ props C28
 //@ func pathExts
+//@ noauto
 //@ props C28
 //@ func stringIndex
+//@ noauto
 //@ props C28
 //@ func testParser.next
+//@ noauto
 //@ props C28
 
 // ---- C28: every lookup of a shell variable passes a non-empty name (lookupVar panics on an empty one) ----
 //@ func expandEnv.Get
+//@ noauto
 //@ props C28
 //@ func Runner.envGet
+//@ noauto
 //@ props C28
 //@ requires [non-empty-name] name != ""
 
 // The unary test operators: the switch handles every operator the parser produces ([parsed-operator] is the range of
 // syntax.UnTestOperator without TsParen, which the parser turns into a ParenTest node), so the final panic is dead.
 //@ func Runner.unTest
+//@ noauto
 //@ props C28
 //@ requires [parsed-operator] (op >= syntax.TsExists && op <= syntax.TsRefVar) || op == syntax.TsNot
 
 // The test expressions the parser builds: the operands of the string-matching operators are words, unary operators
 // are the ones above (assumed: invariants of parser output).
 //@ func Runner.bashTest
+//@ noauto
 //@ props C28
 //@ astinv BinaryTest [match-operands-are-words] implies(self.Op == syntax.TsMatchShort || self.Op == syntax.TsMatch || self.Op == syntax.TsNoMatch, dyntype(self.X, "*syntax.Word") && dyntype(self.Y, "*syntax.Word"))
 //@ astinv UnaryTest [parsed-operator] (self.Op >= syntax.TsExists && self.Op <= syntax.TsRefVar) || self.Op == syntax.TsNot
